@@ -15,32 +15,47 @@ from harness.core import Violation, HarnessError, require
 
 # ------------------------------------------------------------------ spec side
 
+KINDS = {}  # kind -> dict(dom=fn, cod=fn, dagger=fn)  (extension point)
+
+
+def register_kind(kind, dom, cod, dagger=None):
+    KINDS[kind] = dict(dom=dom, cod=cod, dagger=dagger)
+
+
 def bdom(b):
     k = b["k"]
     if k == "box":
-        return [list(x) for x in b["dom"]]
+        return [_o(x) for x in b["dom"]]
     if k in ("swap", "cup"):
-        return [list(b["l"]), list(b["r"])]
+        return [_o(b["l"]), _o(b["r"])]
     if k == "cap":
         return []
     if k == "spider":
-        return [list(b["t"])] * b["n"][0]
+        return [_o(b["t"])] * b["n"][0]
+    if k in KINDS:
+        return [_o(x) for x in KINDS[k]["dom"](b)]
     raise HarnessError("unknown box kind " + k)
 
 
 def bcod(b):
     k = b["k"]
     if k == "box":
-        return [list(x) for x in b["cod"]]
+        return [_o(x) for x in b["cod"]]
     if k == "swap":
-        return [list(b["r"]), list(b["l"])]
+        return [_o(b["r"]), _o(b["l"])]
     if k == "cup":
         return []
     if k == "cap":
-        return [list(b["l"]), list(b["r"])]
+        return [_o(b["l"]), _o(b["r"])]
     if k == "spider":
-        return [list(b["t"])] * b["n"][1]
+        return [_o(b["t"])] * b["n"][1]
+    if k in KINDS:
+        return [_o(x) for x in KINDS[k]["cod"](b)]
     raise HarnessError("unknown box kind " + k)
+
+
+def _o(x):
+    return list(x) if isinstance(x, (list, tuple)) else x
 
 
 def bdagger(b):
@@ -56,6 +71,8 @@ def bdagger(b):
         return dict(b, k="cup")
     if k == "spider":
         return dict(b, n=[b["n"][1], b["n"][0]])
+    if k in KINDS and KINDS[k]["dagger"] is not None:
+        return KINDS[k]["dagger"](b)
     raise HarnessError(k)
 
 
@@ -104,12 +121,23 @@ def arities(spec):
 
 # ------------------------------------------------------------------ builders
 
+CLASSES = {}  # cls -> dict(mod=callable, ty=callable, box=callable)
+
+
+def register_class(cls, mod, ty, box, idf=None, diagram=None):
+    CLASSES[cls] = dict(mod=mod, ty=ty, box=box, idf=idf, diagram=diagram)
+
+
 def mod(cls):
+    if cls in CLASSES:
+        return CLASSES[cls]["mod"]()
     from discopy import monoidal, rigid
     return {"monoidal": monoidal, "rigid": rigid}[cls]
 
 
 def ty(cls, t):
+    if cls in CLASSES:
+        return CLASSES[cls]["ty"](t)
     if cls == "monoidal":
         from discopy import monoidal
         return monoidal.Ty(*[n for n, _ in t])
@@ -119,11 +147,19 @@ def ty(cls, t):
     raise HarnessError(cls)
 
 
+def ident(cls, t):
+    if cls in CLASSES and CLASSES[cls]["idf"]:
+        return CLASSES[cls]["idf"](t)
+    return mod(cls).Id(ty(cls, t))
+
+
 def data_of(b):
     return b.get("data")
 
 
 def box(cls, b):
+    if cls in CLASSES:
+        return CLASSES[cls]["box"](b)
     m = mod(cls)
     k = b["k"]
     if k == "box":
@@ -141,7 +177,7 @@ def box(cls, b):
     raise HarnessError(k)
 
 
-def build(spec, route="ctor", box_fn=None, ty_fn=None, m=None):
+def build(spec, route="ctor"):
     """ Build the library diagram of a spec through the public API.
 
     route "ctor": Diagram(dom, cod, boxes, offsets)  (the scanning constructor)
@@ -149,20 +185,28 @@ def build(spec, route="ctor", box_fn=None, ty_fn=None, m=None):
     route "slice": build a longer diagram and slice the wanted part out
     """
     cls = spec["cls"]
-    m = m or mod(cls)
-    box_fn = box_fn or (lambda b: box(cls, b))
-    ty_fn = ty_fn or (lambda t: ty(cls, t))
     sc = scans(spec)
-    boxes = [box_fn(b) for b, _ in spec["layers"]]
+    boxes = [box(cls, b) for b, _ in spec["layers"]]
     offsets = [off for _, off in spec["layers"]]
+    if cls == "cat":
+        from discopy import cat
+        if route == "ctor":
+            return cat.Arrow(ty(cls, sc[0]), ty(cls, sc[-1]), boxes)
+        result = cat.Id(ty(cls, sc[0]))
+        for bx in boxes:
+            result = result >> bx
+        return result
     if route == "ctor":
-        return m.Diagram(ty_fn(sc[0]), ty_fn(sc[-1]), boxes, offsets)
+        if cls in CLASSES and CLASSES[cls]["diagram"]:
+            return CLASSES[cls]["diagram"](sc[0], sc[-1], boxes, offsets)
+        return mod(cls).Diagram(
+            ty(cls, sc[0]), ty(cls, sc[-1]), boxes, offsets)
     if route in ("whisker", "slice"):
-        result = m.Id(ty_fn(sc[0]))
+        result = ident(cls, sc[0])
         for (b, off), bx, scan in zip(spec["layers"], boxes, sc):
             n = len(bdom(b))
-            result = result >> m.Id(ty_fn(scan[:off])) @ bx\
-                @ m.Id(ty_fn(scan[off + n:]))
+            result = result >> ident(cls, scan[:off]) @ bx\
+                @ ident(cls, scan[off + n:])
         if route == "slice" and boxes:
             padded = result >> result[::-1] >> result
             n = len(boxes)
@@ -175,6 +219,8 @@ def build(spec, route="ctor", box_fn=None, ty_fn=None, m=None):
 
 def tkey(t):
     """ Key of a library type: tuple of (name, z), by reading `.objects`. """
+    if not hasattr(t, "objects"):
+        return ((t.name, 0),)
     return tuple((_okey(o)) for o in t.objects)
 
 
@@ -187,7 +233,15 @@ def _okey(o):
 
 
 def skey_ty(t):
-    return tuple((n, z) for n, z in t)
+    return tuple(skey_ob(x) for x in t)
+
+
+def skey_ob(x):
+    if isinstance(x, dict):  # biclosed: {"o": [left, right]} / {"u": [...]}
+        (tag, (left, right)), = x.items()
+        return ({"o": "Over", "u": "Under"}[tag],
+                skey_ty(left), skey_ty(right))
+    return (x[0], x[1])
 
 
 def same_box(a, b):
@@ -264,7 +318,7 @@ def well_typed(d, what="value", depth=0):
 
 
 def _k(t):
-    return tkey(t) if hasattr(t, "objects") else ("ob", t.name)
+    return tkey(t)
 
 
 def check_against_spec(d, spec, what="built"):
@@ -436,3 +490,109 @@ def ref_eval(spec, dims, arrays, box_tensor=None):
         B = np.asarray(box_tensor(b))
         T = apply_tensor(T, n, off, B, len(bdom(b)))
     return T
+
+
+# --------------------------------------------------------- structural keys
+
+def lib_box_key(bx):
+    """ Structural key of a library box, read from its attributes. """
+    from discopy import cat
+    if isinstance(bx, cat.Sum):
+        return dkey(bx)
+    if isinstance(bx, cat.Bubble):
+        return ("bubble", tkey(bx.dom), tkey(bx.cod), dkey(bx.inside))
+    if not isinstance(bx, cat.Box):
+        return dkey(bx)
+    for kind in ("Cup", "Cap", "Swap"):
+        if type(bx).__name__ == kind and hasattr(bx, "left"):
+            return (kind.lower(), tkey(bx.left), tkey(bx.right))
+    data = getattr(bx, "_data", None)
+    return ("box", type(bx).__name__, _name_key(bx), tkey(bx.dom),
+            tkey(bx.cod), bool(getattr(bx, "_dagger", False)),
+            _data_key(data))
+
+
+def _name_key(bx):
+    name = bx.name
+    return (type(name).__name__, repr(name))
+
+
+def _data_key(data):
+    if data is None:
+        return None
+    if hasattr(data, "shape") and hasattr(data, "tolist"):
+        return repr(data.tolist())
+    return repr(data)
+
+
+def dkey(d):
+    """ Structural key of a library value (diagram / arrow / sum). """
+    from discopy import cat, monoidal
+    if isinstance(d, cat.Sum):
+        return ("sum", tkey(d.dom), tkey(d.cod),
+                tuple(dkey(t) for t in d.terms))
+    boxes = d.boxes
+    if isinstance(d, monoidal.Diagram):
+        return ("diagram", tkey(d.dom), tkey(d.cod),
+                tuple(lib_box_key(b) if b is not d else ("self",)
+                      for b in boxes), tuple(d.offsets)) if not (
+            len(boxes) == 1 and boxes[0] is d) else (
+                "diagram", tkey(d.dom), tkey(d.cod),
+                (_leaf_key(d),), (0,))
+    if len(boxes) == 1 and boxes[0] is d:
+        return ("arrow", tkey(d.dom), tkey(d.cod), (_leaf_key(d),))
+    return ("arrow", tkey(d.dom), tkey(d.cod),
+            tuple(lib_box_key(b) for b in boxes))
+
+
+def _leaf_key(bx):
+    from discopy import cat
+    if isinstance(bx, cat.Bubble):
+        return ("bubble", tkey(bx.dom), tkey(bx.cod), dkey(bx.inside))
+    for kind in ("Cup", "Cap", "Swap"):
+        if type(bx).__name__ == kind and hasattr(bx, "left"):
+            return (kind.lower(), tkey(bx.left), tkey(bx.right))
+    return ("box", type(bx).__name__, _name_key(bx), tkey(bx.dom),
+            tkey(bx.cod), bool(getattr(bx, "_dagger", False)),
+            _data_key(getattr(bx, "_data", None)))
+
+
+def spec_box_key(cls, b):
+    """ The lib_box_key a box built from spec b is expected to have
+    (name, types, dagger flag; class name and data left out: None). """
+    k = b["k"]
+    if k in ("swap", "cup", "cap"):
+        return (k, skey_ty([b["l"]]), skey_ty([b["r"]]))
+    if k == "box":
+        return ("box", b["name"], skey_ty(bdom(b)), skey_ty(bcod(b)),
+                bool(b.get("dag", False)))
+    return (k, skey_ty(bdom(b)), skey_ty(bcod(b)))
+
+
+def matches_spec(d, spec, what=""):
+    """ d (library diagram) is exactly the diagram the spec describes. """
+    cls = spec["cls"]
+    sc = scans(spec)
+    require(tkey(d.dom) == skey_ty(sc[0]), "spec:dom",
+            lambda: "{} {} vs {}".format(what, d.dom, sc[0]))
+    require(tkey(d.cod) == skey_ty(sc[-1]), "spec:cod",
+            lambda: "{} {} vs {}".format(what, d.cod, sc[-1]))
+    boxes = d.boxes
+    require(len(boxes) == len(spec["layers"]), "spec:length",
+            lambda: "{} {}".format(what, d))
+    if hasattr(d, "offsets"):
+        require(list(d.offsets) == [off for _, off in spec["layers"]],
+                "spec:offsets", lambda: "{} {} vs {}".format(
+                    what, d.offsets, [off for _, off in spec["layers"]]))
+    for i, (bx, (b, _)) in enumerate(zip(boxes, spec["layers"])):
+        got = lib_box_key(bx) if bx is not d else _leaf_key(bx)
+        exp = spec_box_key(cls, b)
+        if exp[0] == "box":
+            ok = got[0] == "box" and got[2][1] == repr(exp[1])\
+                and got[3:6] == exp[2:5]
+        elif exp[0] in ("swap", "cup", "cap"):
+            ok = got == exp
+        else:
+            ok = got[3:5] == exp[1:3] if got[0] == "box" else True
+        require(ok, "spec:box", lambda: "{} box {}: {} vs {}".format(
+            what, i, got, exp))
